@@ -3,6 +3,7 @@ C12, round 4: the composite timing statement as ONE theorem (timed power cycle, 
 the exact transitions of the direct API.  Builds on Props/C12.lean and Props/C12Deep.lean.
 -/
 import PrimaiteModel.Props.C12Deep
+import PrimaiteModel.Model.Session
 namespace Primaite.Power
 
 /-! ### helpers -/
@@ -666,5 +667,115 @@ theorem C12_not_on_frame_stops_at_interface (tbl : List Route) (n : Node) (ops :
 
 example : frameClimbs exOn 0 = [.iface, .node, .sess, .swmgr, .software] ∧ frameClimbs (run baseRoutes exOn [shutdownOp]) 0 = [.iface] := by
   decide
+
+/-! ### 3. user-session time-outs while a node is not ON -/
+
+/-- the regenerated text of the sweep: it stamps `current_timestep`, collects the local session if
+`last_active_step + local_session_timeout_steps <= timestep` and every remote session likewise, and times them out;
+neither it nor `_timeout_session` mentions `operating_state` or `_can_perform_action`; `_login` starts with
+`if not self._can_perform_action(): return None` -/
+theorem C12_gen_session_shapes :
+    Gen.Power.sessionShapes =
+      [("pre_timestep", "self.current_timestep = timestep;inactive_sessions: list = [];if(self.local_session)[if(self.local_session.last_active_step + self.local_session_timeout_steps <= timestep)[inactive_sessions.append(self.local_session)]];for(session in self.remote_sessions)[remote_session = self.remote_sessions[session];if(remote_session.last_active_step + self.remote_session_timeout_steps <= timestep)[inactive_sessions.append(remote_session)]];for(sessions in inactive_sessions)[self._timeout_session(sessions)]"),
+       ("login_guarded", "true"), ("sweep_power_blind", "true"),
+       ("remote_limit", "return len(self.remote_sessions) >= self.max_remote_sessions")] := rfl
+
+/-- the sweeps of the pre-timesteps `t, t+1, …, t+k-1` -/
+def Sessions.preRun (s : Sessions) (t : Int) : Nat → Sessions
+  | 0 => s
+  | k + 1 => (s.pre t).preRun (t + 1) k
+
+theorem Sessions.pre_loc (s : Sessions) (t : Int) :
+    (s.pre t).loc = (match s.loc with | some l => if l + s.localTimeout ≤ t then none else some l | none => none) ∧
+    (s.pre t).localTimeout = s.localTimeout ∧ (s.pre t).remoteTimeout = s.remoteTimeout := ⟨rfl, rfl, rfl⟩
+
+/-- **when a session ends.** Whatever happens to the node in between — shutdown, OFF, boot, reset, any request — the
+sweep is a function of the sessions and the time alone (`Sessions.pre` does not take the node), so over `k` consecutive
+pre-timesteps starting at `t` a local session last active at `a` survives iff `t + k - 1 < a + timeout`, i.e. it is ended
+by the pre-timestep of tick `a + timeout` exactly, on an OFF node as on an ON node. -/
+theorem C12_session_ends_at_timeout (s : Sessions) (a t : Int) (k : Nat) (hl : s.loc = some a) (hk : 0 < k) :
+    (s.preRun t k).loc = (if a + s.localTimeout ≤ t + k - 1 then none else some a) := by
+  induction k generalizing s t with
+  | zero => omega
+  | succ k ih =>
+    show ((s.pre t).preRun (t + 1) k).loc = _
+    by_cases hk0 : k = 0
+    · subst hk0
+      show (s.pre t).loc = _
+      rw [(Sessions.pre_loc s t).1, hl]
+      simp only
+      split <;> rename_i h
+      · rw [if_pos (by omega)]
+      · rw [if_neg (by omega)]
+    · by_cases hexp : a + s.localTimeout ≤ t
+      · -- already expired at the first sweep: stays gone
+        have h0 : (s.pre t).loc = none := by rw [(Sessions.pre_loc s t).1, hl]; simp [hexp]
+        have gone : ∀ (j : Nat) (u : Sessions) (v : Int), u.loc = none → (u.preRun v j).loc = none := by
+          intro j
+          induction j with
+          | zero => intro u v h; exact h
+          | succ j ihj =>
+            intro u v h
+            show ((u.pre v).preRun (v + 1) j).loc = none
+            exact ihj _ _ (by rw [(Sessions.pre_loc u v).1, h])
+        rw [gone k _ _ h0, if_pos (by omega)]
+      · have h0 : (s.pre t).loc = some a := by rw [(Sessions.pre_loc s t).1, hl]; simp [hexp]
+        rw [ih (s.pre t) (t + 1) h0 (by omega), (Sessions.pre_loc s t).2.1]
+        by_cases h2 : a + s.localTimeout ≤ t + 1 + ↑k - 1
+        · rw [if_pos h2, if_pos (by push_cast; omega)]
+        · rw [if_neg h2, if_neg (by push_cast; omega)]
+
+/-- the remote sessions likewise: the sweep keeps exactly those with `last_active + timeout > t` -/
+theorem C12_remote_sessions_after_sweep (s : Sessions) (t : Int) :
+    (s.pre t).rem = s.rem.filter (fun r => decide (t < r + s.remoteTimeout)) := by
+  show s.rem.filter _ = _
+  congr 1
+  funext r
+  by_cases h : r + s.remoteTimeout ≤ t <;> simp [h] <;> omega
+
+/-- **no login while not ON**: `_login` begins with `_can_perform_action`, which needs the node ON and the service
+RUNNING — and an OFF node has no RUNNING service anyway (`OffInvS`) -/
+theorem C12_login_needs_on (n : Node) (i : Nat) (s : Sessions) (remote : Bool) (hne : n.st ≠ .on) :
+    s.login (usmCanPerform n i) remote = (s, false) := by
+  have : usmCanPerform n i = false := by
+    unfold usmCanPerform
+    have hison : n.isOn = false := by simp [Node.isOn, hne]
+    split
+    · rw [hison]; rfl
+    · rfl
+  rw [this]; rfl
+
+/-- **is that what the code should do?** C16's own model of `UserSessionManager.pre_timestep` (`Model/Session.lean`, tied to
+the code by C16's rig, power events included) decides expiry by the same comparison and does not read the node's power
+either; C16's property ("inactivity time-out … end[s] the ability to run commands on that session") and its theorem
+`C16_timeout_expired_gone` carry no power hypothesis. So: yes — a session of a node that is OFF must be gone at
+`last_active + timeout`, and it is. What a powered-down node does NOT do is accept a login (`C12_login_needs_on`) or let
+the time-out notification of a remote session out of its disabled interface (`C12_not_on_no_traffic`). What neither
+property asks for, and the code does not do, is end sessions AT shutdown: a session younger than the time-out survives a
+power cycle (observed by the rig; recorded for C16, not a C12 matter). -/
+theorem C12_session_expiry_agrees_with_C16 (nd : Primaite.Session.Node) (p : Primaite.Session.Power) (nic : Bool) (t : Nat) :
+    ({ nd with power := p, nic := nic } : Primaite.Session.Node).localExpired t = nd.localExpired t ∧
+    ({ nd with power := p, nic := nic } : Primaite.Session.Node).expired t = nd.expired t ∧
+    (nd.localExpired t = true ↔ ∃ l, nd.loc = some l ∧
+      (({ loc := some (l.last : Int), localTimeout := nd.localTimeout } : Sessions).pre t).loc = none) := by
+  refine ⟨rfl, rfl, ?_⟩
+  unfold Primaite.Session.Node.localExpired
+  cases hl : nd.loc with
+  | none => simp
+  | some l =>
+    simp only [Option.some.injEq, exists_eq_left', decide_eq_true_eq]
+    rw [(Sessions.pre_loc _ _).1]
+    simp only
+    constructor
+    · intro h; rw [if_pos (by exact_mod_cast h)]
+    · intro h
+      by_cases hc : (l.last : Int) + (nd.localTimeout : Int) ≤ (t : Int)
+      · exact_mod_cast hc
+      · rw [if_neg hc] at h; cases h
+
+/-- non-vacuity: logged in at step 2 with time-out 3; the node is shut down at once; sweeps 3 and 4 keep the session,
+sweep 5 ends it — the node is OFF all along -/
+example : let s : Sessions := { now := 2, loc := some 2, localTimeout := 3 }
+    ((s.preRun 3 2).loc, (s.preRun 3 3).loc) = (some 2, none) := by decide
 
 end Primaite.Power
